@@ -167,6 +167,7 @@ func Load(extraEnv []string, tags string) *Ctx {
 	prog.Build()
 	c.Prog = prog
 	c.ssaS = time.Since(t1).Seconds()
+	gCtx = c
 	return c
 }
 
